@@ -128,7 +128,11 @@ Definition mk_dial (s : stack) (c : tlscfg) (h : hs) : dial :=
 
 (* ---------- client state ---------- *)
 Inductive altst := ANone | APending (ready : bool) | AJar.
-Inductive t3st := T3None | T3Conn | T3Failed (e : errclass).   (* entry of http3 RoundTripper.clients *)
+(* entry of http3 RoundTripper.clients: none; established; dial finished with an error (handed to the next
+   user, who removes the entry); still dialling (a background AddConn dial to a port nobody answers on: it runs
+   under context.Background and only ends with quic-go's own handshake timeout, > 5 s - every user meanwhile
+   waits until its own deadline) *)
+Inductive t3st := T3None | T3Conn | T3Failed (e : errclass) | T3Dialing.
 Record client := mkClient {
   c_tls   : option tlscfg;   (* Options.TLSClientConfig *)
   c_force : force;           (* Transport.forceHttpVersion *)
@@ -191,6 +195,7 @@ Definition rt_h3 (only_cached : bool) (e : env) (c : client) : option res :=
   match c_t3 c with
   | T3Conn => Some (Use V3, [], c)
   | T3Failed er => Some (Fail er, [], with_t3 T3None c)          (* dialErr: removeClient *)
+  | T3Dialing => Some (Fail EDial, [], c)                        (* ctx.Done() while waiting on cl.dialing *)
   | T3None =>
       if only_cached then None else
       let '(h, d) := h3_dial e c in
@@ -297,9 +302,10 @@ Definition do_bg (e : env) (c : client) : list dial * client :=
       let '(h, d) := h3_dial e c in
       match h with
       | HsOk _ => ([d], with_alt (APending true) false (with_t3 T3Conn c))
-      | HsFail er => ((if s_h3 (e_srv e) then [d] else []), with_alt (APending true) false (with_t3 (T3Failed er) c))
+      | HsFail EDial => ([], with_alt (APending true) false (with_t3 T3Dialing c))
+      | HsFail er => ([d], with_alt (APending true) false (with_t3 (T3Failed er) c))
       end
-  | T3Conn => ([], with_alt (APending true) false c)
+  | T3Conn | T3Dialing => ([], with_alt (APending true) false c)
   | T3Failed _ => ([], with_alt (APending false) false (with_t3 T3None c))   (* AddConn returns the dial error *)
   end.
 
